@@ -28,6 +28,10 @@ def main():
         if not ok:
             print(out[-4000:])
             return 1
+        ok, out = C.build_harness_nostd(("release", "dev"))
+        if not ok:
+            print(out[-4000:])
+            return 1
     print(f"setup done in {time.time() - t0:.0f}s")
     return 0
 
